@@ -7,9 +7,12 @@
 // support enabled and disabled at the provider, the refresh grant removed from a
 // client's registration mid-history, faults injected at single storage calls of a
 // request, a second request with the same token forced between a request's look-up
-// and its rotation call) are executed against a fresh world on both routers and
-// judged, request by request, by a sequential reference model written from the
-// property statement and by the journal of the controlled storage.
+// and its rotation call, a storage whose look-up hands the record of a rejected token
+// back together with its error, stock and application-defined providers) are executed
+// against a fresh world on both routers and judged, request by request, by a
+// sequential reference model written from the property statement and by the journal
+// of the controlled storage. A second stratum (overlap.go) parks one refresh request
+// at each of its yield points while another one is served by the same provider.
 package main
 
 import (
@@ -17,8 +20,10 @@ import (
 	"math/rand/v2"
 	"net/http"
 	"net/url"
+	"os"
 	"slices"
 	"strings"
+	"syscall"
 	"time"
 
 	jose "github.com/go-jose/go-jose/v4"
@@ -29,6 +34,7 @@ import (
 	"verif/internal/ev"
 	"verif/internal/keys"
 	"verif/internal/opdrv"
+	"verif/internal/sched"
 	"verif/internal/vclient"
 	"verif/internal/vstore"
 )
@@ -57,37 +63,58 @@ var originScopes = []string{
 func pick[T any](r *rand.Rand, xs ...T) T { return xs[r.IntN(len(xs))] }
 
 type hist struct {
-	run     *ev.Run
-	caseIdx int
-	router  int
-	rn      string
-	r       *rand.Rand
-	w       *opdrv.World // the primary world
-	wOff    *opdrv.World // same storage, refresh grant disabled at the provider
-	allOff  bool         // the primary world itself has the refresh grant disabled
-	cl      map[string]*vclient.Client
-	dereg   map[string]bool
-	chains  []*chain
-	toks    []*tok
-	last    *chain
-	log     []opLog
-	dead    bool // a violation was reported: stop
-	benign  bool // a mostly well-behaved population: long chains with occasional attacks
-	alias   bool // the storage's RefreshTokenRequest aliases the stored token (vstore.AliasRefresh), as the example storage does
-	follow  *tok // the next refresh is a plain request of the owner with this token (it follows a scope refusal)
-	jwtOK   string
-	jwtBad  string
-	sigKey  *keys.Key
+	run        *ev.Run
+	caseIdx    int
+	router     int
+	rn         string
+	r          *rand.Rand
+	w          *opdrv.World // the primary world
+	wOff       *opdrv.World // same storage, refresh grant disabled at the provider
+	allOff     bool         // the primary world itself has the refresh grant disabled
+	cl         map[string]*vclient.Client
+	dereg      map[string]bool
+	chains     []*chain
+	toks       []*tok
+	last       *chain
+	log        []opLog
+	dead       bool              // a violation was reported: stop
+	benign     bool              // a mostly well-behaved population: long chains with occasional attacks
+	alias      bool              // the storage's RefreshTokenRequest aliases the stored token (vstore.AliasRefresh), as the example storage does
+	lax        bool              // the storage's refresh look-up returns the record it found together with the error that rejects it (vstore.SetLaxRefresh)
+	follow     *tok              // the next refresh is a plain request of the owner with this token (it follows a scope refusal)
+	provKind   string            // "stock" | "kept-verifier" | "verifier-per-request" (overlap.go: appProvider)
+	jwtOK      map[string]string // honest client assertions by client id
+	jwtBad     string
+	forged     map[string]string // assertions of overlap.go by (iss, signer, kid kind)
+	assertedAt time.Time         // overlap.go: when the cached assertions were (last) dropped
+	sigKey     *keys.Key
 }
 
 func (h *hist) violated(key, what string) {
 	h.dead = true
-	h.run.Violation("C07:"+h.rn+":"+key, int64(h.caseIdx), what, map[string]any{"router": h.rn, "refresh_disabled_world": h.allOff, "history": h.log})
+	h.run.Violation("C07:"+h.rn+":"+key, int64(h.caseIdx), what, h.witness(h.log))
+}
+
+func (h *hist) witness(log []opLog) map[string]any {
+	if h.caseIdx >= overlapBase && len(log) > 16 {
+		// overlap stratum: hundreds of requests of the same few shapes; the original grants and the tail tell the story
+		// (the whole history is a function of seed and case index: --replay re-runs it)
+		var short []opLog
+		for _, e := range log[:len(log)-10] {
+			if e.Op == "mint" {
+				short = append(short, e)
+			}
+		}
+		short = append(short, opLog{Op: "...", Detail: fmt.Sprintf("%d requests of this case omitted (sequential baselines and earlier forced preemptions, all judged and held)", len(log)-10-len(short))})
+		log = append(short, log[len(log)-10:]...)
+	}
+	return map[string]any{"router": h.rn, "refresh_disabled_world": h.allOff, "storage_request_aliases_stored_token": h.alias,
+		"storage_lookup_returns_request_with_error": h.lax, "provider": h.provKind, "history": log}
 }
 
 // flag reports a violation that does not invalidate the model (the history goes on, so that what follows it is still judged).
 func (h *hist) flag(key, what string) {
-	h.run.Violation("C07:"+h.rn+":"+key, int64(h.caseIdx), what, map[string]any{"router": h.rn, "refresh_disabled_world": h.allOff, "history": slices.Clone(h.log)})
+	h.run.Violation("C07:"+h.rn+":"+key, int64(h.caseIdx), what, h.witness(slices.Clone(h.log)))
 }
 
 // panicked handles a recovered panic of a request; true = stop.
@@ -120,14 +147,33 @@ func setup(w *opdrv.World) map[string]*vclient.Client {
 	}
 	cl["web2"].TokenType = op.AccessTokenTypeJWT
 	cl["devpub"].TokenType = op.AccessTokenTypeJWT
+	// a second private_key_jwt client (overlap.go); both also register their key under one common key id, as
+	// applications that number their keys do
+	jwt2 := vclient.Confidential("jwt2", "", "https://jwt2.example/cb")
+	jwt2.Auth = oidc.AuthMethodPrivateKeyJWT
+	jwt2.ExtraScopes = []string{"api:read", "api:write"}
+	w.Store.AddClient(jwt2)
+	w.Store.AddClientKey("jwt2", opdrv.ClientKey("jwt2"))
+	cl["jwt2"] = jwt2
+	for _, id := range []string{"jwt", "jwt2"} {
+		w.Store.AddClientKey(id, opdrv.ClientKey(id).With(sharedKid, jose.RS256, "sig"))
+	}
 	return cl
 }
 
 func newHist(run *ev.Run, caseIdx, router int) *hist {
-	h := &hist{run: run, caseIdx: caseIdx, router: router, rn: opdrv.RouterNames[router], r: run.CaseRand(7, caseIdx), dereg: map[string]bool{}}
+	h := &hist{run: run, caseIdx: caseIdx, router: router, rn: opdrv.RouterNames[router], r: run.CaseRand(7, caseIdx), dereg: map[string]bool{}, jwtOK: map[string]string{}}
 	h.allOff = h.r.IntN(12) == 0
+	h.provKind = pick(h.r, provKinds...)
+	h.build()
+	return h
+}
+
+// build draws the storage dimensions and creates the primary world (allOff and provKind are set by the caller).
+func (h *hist) build() {
 	h.benign = h.r.IntN(3) == 0
 	h.alias = h.r.IntN(3) == 0
+	h.lax = h.r.IntN(3) == 0
 	cfg := opdrv.DefaultConfig()
 	cfg.GrantTypeRefreshToken = !h.allOff
 	// the provider's signing key: mostly ES256 (cheap), RS256 for one history in eight
@@ -135,10 +181,16 @@ func newHist(run *ev.Run, caseIdx, router int) *hist {
 	if h.r.IntN(8) == 0 {
 		h.sigKey = keys.Get("op-sig-1", jose.RS256)
 	}
-	h.w = opdrv.MustWorld(opdrv.Options{Config: cfg, Caps: vstore.Full, SigningKey: h.sigKey})
+	h.w = opdrv.MustWorld(opdrv.Options{Config: cfg, Caps: vstore.Full, SigningKey: h.sigKey, WrapProvider: wrapFor(h.provKind)})
 	h.w.Store.AliasRefresh = h.alias
+	h.w.Store.SetLaxRefresh(h.lax)
 	h.cl = setup(h.w)
-	return h
+}
+
+// close drops what the history registered outside its own objects.
+func (h *hist) close() {
+	h.w.Store.SetLaxRefresh(false)
+	h.w.Store.SetGate(nil)
 }
 
 func (h *hist) offWorld() *opdrv.World {
@@ -148,26 +200,28 @@ func (h *hist) offWorld() *opdrv.World {
 	if h.wOff == nil {
 		cfg := opdrv.DefaultConfig()
 		cfg.GrantTypeRefreshToken = false
-		h.wOff = opdrv.MustWorld(opdrv.Options{Config: cfg, Caps: vstore.Full, Store: h.w.Store, SigningKey: h.sigKey})
+		h.wOff = opdrv.MustWorld(opdrv.Options{Config: cfg, Caps: vstore.Full, Store: h.w.Store, SigningKey: h.sigKey, WrapProvider: wrapFor(h.provKind)})
 	}
 	return h.wOff
 }
 
 func (h *hist) authFor(c *vclient.Client) opdrv.ClientAuth {
 	if c.Auth == oidc.AuthMethodPrivateKeyJWT {
-		if h.jwtOK == "" {
-			h.jwtOK = h.w.ClientAssertion(opdrv.ClientKey(c.ID), c.ID)
+		if h.jwtOK[c.ID] == "" {
+			h.jwtOK[c.ID] = h.w.ClientAssertion(opdrv.ClientKey(c.ID), c.ID)
 		}
-		return opdrv.AssertionAuth(h.jwtOK)
+		return opdrv.AssertionAuth(h.jwtOK[c.ID])
 	}
 	return h.w.AuthFor(c)
 }
 
 // ---------- original grants ----------
 
-func (h *hist) mint() {
+func (h *hist) mint() { h.mintFor(pick(h.r, ownerIDs...)) }
+
+func (h *hist) mintFor(clientID string) {
 	r, w := h.r, h.w
-	c := h.cl[pick(r, ownerIDs...)]
+	c := h.cl[clientID]
 	user := pick(r, "user-1", "user-2")
 	scope := pick(r, originScopes...)
 	k := len(h.chains)
@@ -544,6 +598,7 @@ func (h *hist) refresh() {
 	}
 	var jl []string
 	var creates, createErrs, faults []vstore.Entry
+	laxReturned := false // the storage's look-up handed a request back together with its error
 	for _, e := range journal {
 		if e.Fault {
 			faults = append(faults, e)
@@ -557,7 +612,8 @@ func (h *hist) refresh() {
 				createErrs = append(createErrs, e)
 			}
 		} else if e.Method == "TokenRequestByRefreshToken" {
-			jl = append(jl, fmt.Sprintf("%s(%q) err=%q", e.Method, e.A, e.Err))
+			jl = append(jl, fmt.Sprintf("%s(%q) err=%q %s", e.Method, e.A, e.Err, e.Ret))
+			laxReturned = laxReturned || (e.Ret == vstore.LaxGrantNote && e.Err != "")
 		}
 	}
 	rel := "own"
@@ -584,6 +640,16 @@ func (h *hist) refresh() {
 	h.run.Count("placement_credentials", pl.cred)
 	h.run.Count("presenter", presenter+"/"+rel)
 	h.run.Count("disturbance", dist.kind)
+	if h.lax {
+		switch {
+		case laxReturned && len(faults) > 0 && faults[0].Method == "TokenRequestByRefreshToken":
+			h.run.Count("lax_lookup", "request-returned-with-injected-error")
+		case laxReturned:
+			h.run.Count("lax_lookup", "request-returned-with-error:token-"+tokKind)
+		default:
+			h.run.Count("lax_lookup", "no-rejected-lookup-of-a-stored-token")
+		}
+	}
 	faultAt := ""
 	if len(faults) > 0 {
 		faultAt = faults[0].Method
@@ -676,7 +742,7 @@ func (h *hist) refresh() {
 	} else if dist.kind != "none" {
 		trouble = "not-reached"
 	}
-	h.run.Distinct(fmt.Sprintf("%s|%s/%v|%v|%v|%s|%s|%s|%s|%s|%s|%s|%d|%v|%s", h.rn, pl.gt, pl.restBody(), h.alias, enabled, ref.ch.via, h.cl[owner].Auth, rel, pauth, cr.kind, tokKind, scopeKind, pos, h.dereg[owner], trouble))
+	h.run.Distinct(fmt.Sprintf("%s|%s/%v|%v/%v|%v|%s|%s|%s|%s|%s|%s|%s|%d|%v|%s", h.rn, pl.gt, pl.restBody(), h.alias, laxReturned, enabled, ref.ch.via, h.cl[owner].Auth, rel, pauth, cr.kind, tokKind, scopeKind, pos, h.dereg[owner], trouble))
 
 	if success && len(creates) > 0 && !slices.ContainsFunc(creates, func(e vstore.Entry) bool { return strings.HasPrefix(e.A, "refresh") }) {
 		// conflicting grant_type members: the request was served by another grant (judged by what the storage was
@@ -740,6 +806,15 @@ func (h *hist) refresh() {
 			return
 		}
 		h.run.Count("refusal_error", refuse[0]+" -> "+resp.OAuthError())
+		if laxReturned {
+			// the library held a non-nil request next to the storage's error and refused all the same
+			if len(faults) > 0 && faults[0].Method == "TokenRequestByRefreshToken" {
+				h.run.Observed("lax-storage:request-with-injected-error:refused:" + h.rn)
+			} else if t != nil && !t.live {
+				h.run.Observed("lax-storage:request-with-error:" + t.dead + ":refused:" + h.rn)
+				h.sample("lax-storage:rejected-token-returned-with-error")
+			}
+		}
 		if t != nil && t.live && len(refuse) == 1 && refuse[0] == "scope-not-granted" {
 			t.scopeRefused = true
 			if r.IntN(10) < 7 {
@@ -857,7 +932,11 @@ func (h *hist) refresh() {
 		h.run.Observed("success-public:" + h.rn)
 	case oidc.AuthMethodPrivateKeyJWT:
 		h.run.Observed("success-private_key_jwt:" + h.rn)
+		if h.provKind != "stock" {
+			h.run.Observed("app-provider:" + h.provKind + ":success-private_key_jwt:" + h.rn)
+		}
 	}
+	h.run.Count("success_on_provider", h.provKind)
 
 	nt, newRec, atRec, ok := h.acceptSuccess(t, presented, toks, creates, jl)
 	if !ok {
@@ -1221,6 +1300,7 @@ func (h *hist) observe(nt *tok, atRec vstore.Token) {
 
 func runHistory(run *ev.Run, caseIdx int, router int) {
 	h := newHist(run, caseIdx, router)
+	defer h.close()
 	steps := 8 + h.r.IntN(24)
 	for s := 0; s < steps && !h.dead; s++ {
 		c := h.r.IntN(100)
@@ -1256,7 +1336,7 @@ func runHistory(run *ev.Run, caseIdx int, router int) {
 
 func main() {
 	run := ev.Start("C07", "exploration")
-	run.SetRule("random histories (8-31 ops) on a fresh world per history and router: original grants (code exchange / device flow with offline_access, 6 scope sets, 2 users, per-chain audience and auth_time) for clients {web, web2(JWT access tokens) basic; post; native public+PKCE; jwt private_key_jwt; dev basic device; devpub public device(JWT)}, then refresh requests presenter {owner, other registered client, svc without the grant, unknown client} x credential {ok, wrong secret/key, none, other method, superfluous secret, valid credential + owner's client_id} x token {current, rotated-away, expired, unknown: garbage/near-miss/access token/missing/suffix} x scope list {absent, empty, equal, permuted, subset, subset with duplicate, superset head/tail, regrow of a narrowed-away scope, disjoint, case variant, affix variant, malformed spacing} x storage {the RefreshTokenRequest is a copy; it aliases the stored token (vstore.AliasRefresh, 1/3 of histories)} x provider refresh support {on, off (same storage), off for the whole history} x parameter placement {grant_type, refresh_token, scope, client credentials each in the form body, in the URL query only, or in both; grant_type also conflicting: query says refresh_token while the body names authorization_code / client_credentials, and vice versa; 55% of requests are all-body} x follow-up {70% of scope-only refusals are followed by a plain request of the owner with the same token} x client re-registered without the refresh grant x trouble at the storage boundary while the request is served {none 82%; an injected fault (plain error / wrapped context.DeadlineExceeded / oidc server_error) at the k-th storage call of the request, k in 1..9; the same at every call of one method out of GetClientByClientID, AuthorizeClientIDSecret, GetKeyByIDAndClientID, TokenRequestByRefreshToken, CreateAccessAndRefreshTokens(x3), CreateAccessToken, SigningKey, SignatureAlgorithms, SetUserinfoFromScopes, GetPrivateClaimsFromScopes; a forced interleaving through a gate at the entrance of the storage's CreateAccessAndRefreshTokens: a second, plain request of the owner with the same token is served completely (either router) between this request's look-up and its rotation call}; every refresh request (the rival of an interleaving included) is one evaluation; distinct = distinct vectors (router, grant_type placement / all other parameters in the body, aliasing storage, enabled, grant kind, owner auth method, own/foreign, presenter auth method, credential kind, token kind, scope kind, chain position 0..3+, owner deregistered, storage trouble: none / method the fault fired at / interleaving and its rival's outcome / not reached)")
+	run.SetRule("random histories (8-31 ops) on a fresh world per history and router: original grants (code exchange / device flow with offline_access, 6 scope sets, 2 users, per-chain audience and auth_time) for clients {web, web2(JWT access tokens) basic; post; native public+PKCE; jwt private_key_jwt; dev basic device; devpub public device(JWT)}, then refresh requests presenter {owner, other registered client, svc without the grant, unknown client} x credential {ok, wrong secret/key, none, other method, superfluous secret, valid credential + owner's client_id} x token {current, rotated-away, expired, unknown: garbage/near-miss/access token/missing/suffix} x scope list {absent, empty, equal, permuted, subset, subset with duplicate, superset head/tail, regrow of a narrowed-away scope, disjoint, case variant, affix variant, malformed spacing} x storage {the RefreshTokenRequest is a copy; it aliases the stored token (vstore.AliasRefresh, 1/3 of histories)} x storage look-up {a rejected look-up returns a nil request; it returns the record it found together with the error (expired / rotated-away tokens, injected faults at the look-up) and the rotation call leaves the expiry to the look-up (vstore.SetLaxRefresh, 1/3 of histories)} x provider {stock; application-defined (embeds *op.Provider, overrides JWTProfileVerifier) keeping ONE verifier; the same building it per request} x provider refresh support {on, off (same storage), off for the whole history} x parameter placement {grant_type, refresh_token, scope, client credentials each in the form body, in the URL query only, or in both; grant_type also conflicting: query says refresh_token while the body names authorization_code / client_credentials, and vice versa; 55% of requests are all-body} x follow-up {70% of scope-only refusals are followed by a plain request of the owner with the same token} x client re-registered without the refresh grant x trouble at the storage boundary while the request is served {none 82%; an injected fault (plain error / wrapped context.DeadlineExceeded / oidc server_error) at the k-th storage call of the request, k in 1..9; the same at every call of one method out of GetClientByClientID, AuthorizeClientIDSecret, GetKeyByIDAndClientID, TokenRequestByRefreshToken, CreateAccessAndRefreshTokens(x3), CreateAccessToken, SigningKey, SignatureAlgorithms, SetUserinfoFromScopes, GetPrivateClaimsFromScopes; a forced interleaving through a gate at the entrance of the storage's CreateAccessAndRefreshTokens: a second, plain request of the owner with the same token is served completely (either router) between this request's look-up and its rotation call}; every refresh request (the rival of an interleaving included) is one evaluation; distinct = distinct vectors (router, grant_type placement / all other parameters in the body, aliasing storage, enabled, grant kind, owner auth method, own/foreign, presenter auth method, credential kind, token kind, scope kind, chain position 0..3+, owner deregistered, storage trouble: none / method the fault fired at / interleaving and its rival's outcome / not reached). OVERLAP STRATUM (overlap.go, fixed number of cases, each on both routers): a world with original grants for two private_key_jwt clients (each key registered under its own and under one common key id) and a Basic client on a provider {kept verifier 60%, verifier per request 20%, stock 20%}; 2 pairs of refresh requests per case out of {forged assertion naming the victim, signed with and carrying the key id of the attacker's registered key, presenting the victim's token / honest request of the attacker; two honest private_key_jwt clients; valid credential of one client presenting another client's token / its own honest request; private_key_jwt client / Basic client}, scope lists from the same 13 kinds; each request served alone (yield points recorded: library spans, storage calls, client getters), then for EVERY yield point k of the first request: it is parked at k, the second request is served completely (either router), the first is released; roles swapped; every request is one evaluation, judged on its own by the sequential model (the two requests present tokens of different chains); distinct = (router, other router, provider kind, pair kind, parked shape, key id kind, point, both outcomes, lax storage)")
 	run.Assume(
 		"vstore policy: refresh tokens rotate (CreateAccessAndRefreshTokens kills the presented token), TokenRequestByRefreshToken fails for unknown, rotated and expired tokens, and the new refresh token records the scopes of the token request it was created from — 'granted' in the chain condition is that record",
 		"after a refused request presenting a live token, later success for that token is grey (burning on failure would be legal); after a replay of a dead token of a chain, later success anywhere in the chain is grey (revoking the family would be legal)",
@@ -1266,25 +1346,44 @@ func main() {
 		"where a parameter travels (form body, URL query, both) never changes who may refresh: the refusal side of the model is placement-blind; success is demanded only for all-body requests; a request with conflicting grant_type members is judged by what was served (a success whose journal shows no refresh token request was served by another grant and is not judged)",
 		"in one third of the histories the storage hands out a RefreshTokenRequest that aliases the stored token (SetCurrentScopes writes through, as in the repository's example storage); after every refused request the scopes the storage holds for the presented token are compared with those before it: widened -> violation, only narrowed -> grey",
 		"storage trouble: the statement's conditions rest on the storage's answers (the client and its registration, the verdict on its credential, the token's owner and granted scopes, the new refresh token of the rotation); a request during which the storage failed to give one of them (injected fault at GetClientByClientID / AuthorizeClientIDSecret / GetKeyByIDAndClientID / TokenRequestByRefreshToken, or a CreateAccessAndRefreshTokens call that returned an error - injected, or the storage's own refusal after a lost race - without a successful rotation of the presented token) must not succeed and must create nothing; a failure of any other call (signing key, claims) is grey in both directions; a refused request whose one successful rotation PRECEDES the injected fault is grey (the tokens exist in the storage and reach nobody; the model marks the presented token consumed), a creation after the failed call is a violation",
+		"lax storage look-up: nothing in op.Storage forbids a non-nil request next to a non-nil error; a request whose look-up the storage answered with an error (the token is expired / rotated away, or the look-up failed) is refused by the statement whatever else the storage returned; the lax storage's rotation call checks that the presented token has not been rotated away but leaves the expiry to the look-up",
+		"overlap stratum: an application may keep one *op.JWTProfileVerifier for the provider's life (NewJWTProfileVerifier returns a pointer, OpenIDProvider.JWTProfileVerifier hands out pointers); what a request is entitled to never depends on what else the provider is serving: each of two overlapping requests (tokens of different chains) is judged exactly as a sequential one; a second request that cannot finish while the first is parked is inconclusive, never a verdict",
 		"forced interleaving: the order in which the storage is asked to rotate is the order of the sequential model: the rival (served completely while the first request is parked) is judged as a request presenting a live token, the parked request as one presenting a token rotated away; if the rival is refused the parked request is judged as usual (success grey, after a failed attempt)")
 	n := run.N(4000, 40000)
+	nOverlap := run.N(160, 3000)
+	sched.Install() // the library's spans, the storage calls and the client getters become yield points (overlap.go); inert unless a goroutine is registered
 	if rc := run.ReplayCase(); rc >= 0 {
-		runHistory(run, int(rc), 0)
-		runHistory(run, int(rc), 1)
+		if rc >= overlapBase {
+			runOverlap(run, int(rc)-overlapBase, 0)
+			runOverlap(run, int(rc)-overlapBase, 1)
+		} else {
+			runHistory(run, int(rc), 0)
+			runHistory(run, int(rc), 1)
+		}
 		run.Finish()
 	}
 	var mand []string
 	for _, rn := range opdrv.RouterNames {
 		for _, m := range []string{"success", "success-public", "success-private_key_jwt", "refused-foreign-authenticated", "refused-unauthenticated", "refused-invalid_scope", "refused-regrow", "refused-replay", "refused-disabled", "refused-deregistered", "chain>=4", "narrowed-twice", "history-with-refresh-disabled", "scope-refused-then-success", "aliasing-storage:scope-refused-then-success", "grant_type-in-query-only:success", "grant_type-in-query-only:refused-deregistered",
-			"fault-at-rotation:refused", "fault-at-lookup:refused", "fault-at-client-authentication:refused", "fault-after-rotation:refused", "concurrent-refresh:loser-refused", "concurrent-refresh:rival-success"} {
+			"fault-at-rotation:refused", "fault-at-lookup:refused", "fault-at-client-authentication:refused", "fault-after-rotation:refused", "concurrent-refresh:loser-refused", "concurrent-refresh:rival-success",
+			"lax-storage:request-with-error:expired:refused", "lax-storage:request-with-error:rotated:refused", "lax-storage:request-with-injected-error:refused",
+			"app-provider:kept-verifier:success-private_key_jwt", "app-provider:verifier-per-request:success-private_key_jwt"} {
 			mand = append(mand, m+":"+rn)
 		}
 	}
 	run.Mandatory(mand...)
+	run.Mandatory(overlapMandatory()...)
+	cpu0 := cpuSeconds()
 	ev.Parallel(n, 0, func(_ int, i int) {
 		runHistory(run, i, 0)
 		runHistory(run, i, 1)
 	})
+	cpu1 := cpuSeconds()
+	ev.Parallel(nOverlap, 0, func(_ int, i int) {
+		runOverlap(run, i, 0)
+		runOverlap(run, i, 1)
+	})
+	fmt.Fprintf(os.Stderr, "C07 cpu seconds: histories %.1f, overlap stratum %.1f\n", cpu1-cpu0, cpuSeconds()-cpu1)
 	run.Finish()
 }
 
@@ -1348,4 +1447,13 @@ func (p placement) split(form url.Values, auth opdrv.ClientAuth) (query, body ur
 		}
 	}
 	return query, body, hook
+}
+
+// cpuSeconds is the CPU time (user + system) this process has used (reported in the log only; no verdict depends on it).
+func cpuSeconds() float64 {
+	var ru syscall.Rusage
+	if syscall.Getrusage(syscall.RUSAGE_SELF, &ru) != nil {
+		return 0
+	}
+	return float64(ru.Utime.Sec+ru.Stime.Sec) + float64(ru.Utime.Usec+ru.Stime.Usec)/1e6
 }
